@@ -122,7 +122,8 @@ var flagSets = func() []flagSet {
 // (taproot-era consensus and relay policy) while visiting all others.
 func genFlagSet() *rapid.Generator[flagSet] {
 	return rapid.Custom(func(t *rapid.T) flagSet {
-		i := rapid.SampledFrom([]int{0, 1, 2, 3, 4, 5, 5, 6, 6, 6, 7, 7, 7, 7}).Draw(t, "flagset")
+		// rapid favours the first entries of a SampledFrom list
+		i := rapid.SampledFrom([]int{6, 7, 5, 6, 7, 4, 3, 2, 1, 0, 5, 6, 7}).Draw(t, "flagset")
 		return flagSets[i]
 	})
 }
@@ -131,7 +132,7 @@ func genFlagSet() *rapid.Generator[flagSet] {
 // witness spends (trivially valid before segwit activates).
 func genFlagSetWitnessHeavy() *rapid.Generator[flagSet] {
 	return rapid.Custom(func(t *rapid.T) flagSet {
-		i := rapid.SampledFrom([]int{0, 1, 2, 3, 4, 5, 5, 5, 6, 6, 6, 6, 6, 6, 7, 7, 7, 7, 7, 7, 7}).Draw(t, "flagset")
+		i := rapid.SampledFrom([]int{6, 7, 6, 7, 5, 6, 7, 5, 4, 3, 2, 1, 0, 6, 7}).Draw(t, "flagset")
 		return flagSets[i]
 	})
 }
@@ -421,6 +422,7 @@ var knownQuirks = []struct {
 	{ms.QuirkEmptySigKeepsOp0, "const-scriptcode-empty-sig-op0"},
 	{ms.QuirkStrictBER, "pre-bip66-lax-der-parser"},
 	{ms.QuirkMultisigSkipsPubkeyCheck, "multisig-empty-sig-skips-pubkey-encoding"},
+	{ms.QuirkTapscriptEmptySigSkipsPubkeyType, "tapscript-empty-sig-unknown-pubkey-not-discouraged"},
 }
 
 // activeQuirks are the deviations that are listed as known: the model
